@@ -205,10 +205,10 @@ class Family:
       case = self.decode(i)
       if i == lo and lo % 7 == 0:
         acc.sample({"family": self.name, "index": i, "case": case})
-      run_case(self, case, acc, index=i)
+      run_case(self, case, acc, index=i, chunk_lo=lo)
 
 
-def run_case(fam, case, acc: Acc, index=None):
+def run_case(fam, case, acc: Acc, index=None, chunk_lo=None):
   """Executes one case under the per-case alarm; unexpected exceptions are classified."""
   sub = Acc()
   if fam.timeout:
@@ -233,6 +233,8 @@ def run_case(fam, case, acc: Acc, index=None):
     for r in recs:
       r["family"] = fam.name
       r["index"] = index
+      if chunk_lo is not None:
+        r["chunk_lo"] = chunk_lo
   acc.merge(sub)
   return sub
 
@@ -494,6 +496,11 @@ def replay(prop_id, plan, path, log=print):
   case = jdec(rec["case"])
   sub = Acc()
   signal.signal(signal.SIGALRM, _alarm)
+  if fam.kind == "inputs" and rec.get("pre_indices"):
+    # history-dependent behaviour: the violation needs these cases of the family to run first in the same process
+    for i in rec["pre_indices"]:
+      run_case(fam, fam.decode(i), Acc(), index=i)
+    log(f"replay: {len(rec['pre_indices'])} preceding case(s) of {fam.name} executed first in this process")
   if fam.kind == "inputs":
     run_case(fam, case, sub)
   else:
@@ -536,12 +543,14 @@ def run_property(mod, tier, seed, log=print, confirm=True):
   new_viol = []
   known_hits = []
   fam_by_name = {f.name: f for f in plan}
+  recs_by_sig = {}      # unshrunk first witness per signature (carries index / chunk_lo for history-dependent replays)
   for (clause, disc), (n, recs) in sorted(total.viol.items()):
     k = match_known(known, prop_id, clause, disc)
     if k is not None:
       known_hits.append((k, n))
       continue
     rec = recs[0]
+    recs_by_sig[(clause, disc)] = rec
     fam = fam_by_name.get(rec["family"])
     if fam is not None:
       try:
@@ -570,9 +579,41 @@ def run_property(mod, tier, seed, log=print, confirm=True):
       json.dump(out, f, indent=1)
     ok = True
     if confirm:
-      cp = subprocess.run([sys.executable, "-B", os.path.join(env.VERIF, "mc", "main.py"), prop_id, "--tier", tier,
-                           "--seed", str(seed), "--replay", path], capture_output=True, text=True, timeout=600)
+      def _replay_rc():
+        return subprocess.run([sys.executable, "-B", os.path.join(env.VERIF, "mc", "main.py"), prop_id, "--tier", tier,
+                               "--seed", str(seed), "--replay", path], capture_output=True, text=True, timeout=900)
+      cp = _replay_rc()
       ok = cp.returncode == 1
+      orig = recs_by_sig.get((clause, disc))
+      if not ok and orig is not None and orig.get("index") is not None and orig.get("chunk_lo") is not None:
+        # not reproducible alone: history-dependent behaviour is a violation too, provided it can be replayed.  Re-run the
+        # unshrunk case after the cases that preceded it in its chunk (then after the whole family prefix), in a fresh process
+        idx, lo = orig["index"], orig["chunk_lo"]
+        for pre in ([list(range(lo, idx))] if idx > lo else []) + ([list(range(0, idx))] if 0 < lo and idx <= 30000 else []):
+          out = dict(orig)
+          out.update({"property": prop_id, "tier": tier, "seed": seed, "occurrences": n, "pre_indices": pre})
+          with open(path, "w", encoding="utf-8") as f:
+            json.dump(out, f, indent=1)
+          cp2 = _replay_rc()
+          if cp2.returncode == 1:
+            # keep only as many of the preceding cases as are needed (halving)
+            while len(pre) > 1:
+              for half in (pre[len(pre) // 2:], pre[:len(pre) // 2]):
+                out["pre_indices"] = half
+                with open(path, "w", encoding="utf-8") as f:
+                  json.dump(out, f, indent=1)
+                if _replay_rc().returncode == 1:
+                  pre = half
+                  break
+              else:
+                break
+            out["pre_indices"] = pre
+            out["note"] = ((out.get("note") or "") + f" [history-dependent: reproduces only after case(s) {pre[:8]}{'...' if len(pre) > 8 else ''} "
+                           f"of family {out.get('family')} ran in the same process; alone in a fresh process the case passes]").strip()
+            with open(path, "w", encoding="utf-8") as f:
+              json.dump(out, f, indent=1)
+            rec, ok = out, True
+            break
       if not ok:
         unconfirmed += 1
         log(f"HARNESS-ERROR property={prop_id}: violation {clause} {disc} did not reproduce in a fresh process "
